@@ -659,6 +659,8 @@ class CallMixin:
                         o.items.update(src)
                         return None
                 raise Unsupported(f"dict.{name}")
+            if isinstance(o, ObjV) and o.cls in (getattr(self.contract, "inline", {}) or {}) and name in ("__enter__", "__exit__"):
+                return self._cm_inline(recv, st, name, list(args))
             if isinstance(o, ObjV):
                 c = self.find_method_contract(o.cls, name)
                 if c is None:
